@@ -28,8 +28,8 @@ type failFn func(fingerprint, format string, args ...any)
 // ---------------------------------------------------------------------------
 // Instrumented file pool
 
-// fakePool is a pool.FilePool whose files live in memory, count Close calls
-// and flag every use after Close.
+// fakePool is a pool.FilePool whose files live in memory, count Close calls,
+// flag every use after Close, and can fail single operations.
 type fakePool struct {
 	fail  failFn
 	files []*poolFile
@@ -58,7 +58,26 @@ type poolFile struct {
 	// failReads makes the next ReadAt calls fail (fault injection);
 	// readFailures counts the failures that were delivered.
 	failReads, readFailures int
+	// failWrite makes the next WriteAt fail the way sector based pools
+	// do when they run out of space or hit an I/O error: either after
+	// having stored the first byte (writePartial: returns 1 together
+	// with an error) or before having stored anything (writeNothing).
+	// writeFailures counts the failures that were delivered.
+	failWrite     writeFault
+	writeFailures int
+	// failTruncate makes the next Truncate fail without changing
+	// anything; truncateFailures counts the delivered failures.
+	failTruncate     bool
+	truncateFailures int
 }
+
+type writeFault int
+
+const (
+	writeOK writeFault = iota
+	writePartial
+	writeNothing
+)
 
 func (f *poolFile) version() int { return len(f.history) - 1 }
 
@@ -115,17 +134,34 @@ func (f *poolFile) WriteAt(p []byte, off int64) (int, error) {
 	if !f.use("WriteAt") {
 		return 0, status.Error(codes.Internal, "pool file used after close")
 	}
+	var err error
+	switch fault := f.failWrite; {
+	case fault == writeNothing:
+		f.failWrite = writeOK
+		f.writeFailures++
+		return 0, status.Error(codes.ResourceExhausted, "injected pool write error: out of space")
+	case fault == writePartial && len(p) > 1:
+		f.failWrite = writeOK
+		f.writeFailures++
+		p = p[:1]
+		err = status.Error(codes.ResourceExhausted, "injected pool write error: out of space after 1 byte")
+	}
 	if end := int(off) + len(p); end > len(f.data) {
 		f.data = append(f.data, make([]byte, end-len(f.data))...)
 	}
 	copy(f.data[off:], p)
 	f.mutated()
-	return len(p), nil
+	return len(p), err
 }
 
 func (f *poolFile) Truncate(size int64) error {
 	if !f.use("Truncate") {
 		return status.Error(codes.Internal, "pool file used after close")
+	}
+	if f.failTruncate {
+		f.failTruncate = false
+		f.truncateFailures++
+		return status.Error(codes.Internal, "injected pool truncate error")
 	}
 	if int(size) <= len(f.data) {
 		f.data = f.data[:size:size]
